@@ -267,10 +267,104 @@ theorem next_advances (it : NoteIter) (hlen : it.data.len < 2 ^ 63) (n : Note) (
           · cases hr
         · cases hr
 
+/-! ## List level: iteration yields exactly the records laid out back to back from offset 0 -/
+
+/-- **The layout the ABI describes**: starting at `off`, as long as a whole record fits (`recordAt`)
+    and its typed reading succeeds (`typeNote`: only a "GNU\0"/NT_GNU_ABI_TAG record with a short
+    descriptor fails), one note per record, each starting where the previous one's padded
+    descriptor ended; the list ends at the first record that does not fit.  `fuel` bounds the
+    number of records (every record is at least 12 bytes). -/
+def layout (le : Bool) (cls : Class) (align : Nat) (d : Slice) : Nat → Nat → List Note
+  | 0, _ => []
+  | fuel + 1, off =>
+    match recordAt le align d off with
+    | some (ntype, name, desc, nx) =>
+      match typeNote le cls ntype name desc with
+      | .ok n => n :: layout le cls align d fuel nx
+      | _ => []
+    | none => []
+
+theorem typeNote_ne_panic (le : Bool) (cls : Class) (ntype : Nat) (name desc : Slice) :
+    typeNote le cls ntype name desc ≠ .panic := by
+  unfold typeNote
+  split
+  · split
+    · have := EntryParser.parse_no_panic NoteGnuAbiTag.ep total_NoteGnuAbiTag le cls desc 0
+      cases hp : (NoteGnuAbiTag.ep.parse le cls desc 0).1 with
+      | ok t => simp
+      | err e => simp
+      | panic => exact absurd hp this
+    · split <;> simp
+  · simp
+
+/-- **Iterating a note section / segment yields exactly `layout`**: in order, one note per record
+    laid out back to back from the iterator's offset, ending at the first record that does not
+    fit — for every byte string, both classes and byte orders, every non-zero alignment. -/
+theorem collect_eq_layout (le : Bool) (cls : Class) (align : Nat) (d : Slice) (ha : align ≠ 0)
+    (hlen : d.len < 2 ^ 63) (n off : Nat) (acc : List Note) :
+    (NoteIter.collectFuel n ⟨le, cls, align, d, off⟩ acc).1 = .ok (acc ++ layout le cls align d n off) := by
+  induction n generalizing off acc with
+  | zero => simp [NoteIter.collectFuel, layout]
+  | succ n ih =>
+    unfold NoteIter.collectFuel layout
+    have hs := parse_at_spec le cls align d off ha hlen
+    unfold NoteIter.next
+    by_cases hE : d.isEmpty = true
+    · -- empty data: nothing fits
+      have h0 : d.len = 0 := by simpa [Slice.isEmpty] using hE
+      have hr : recordAt le align d off = none := by
+        unfold recordAt
+        have : ¬ off + 12 ≤ d.len := by omega
+        simp [this]
+      simp only [hE, if_true, hr]
+      simp
+    · simp only [hE, Bool.false_eq_true, if_false]
+      cases hr : recordAt le align d off with
+      | none =>
+        rw [hr] at hs; obtain ⟨e, o, he⟩ := hs
+        simp only [he]
+        simp
+      | some r =>
+        obtain ⟨ntype, name, desc, nx⟩ := r
+        rw [hr] at hs; simp only at hs
+        simp only [hs]
+        cases ht : typeNote le cls ntype name desc with
+        | ok note =>
+          simp only
+          rw [ih nx (acc ++ [note])]
+          simp
+        | err e => simp
+        | panic => exact absurd ht (typeNote_ne_panic le cls ntype name desc)
+
+/-- the iterator as the crate builds it (offset 0, fuel = length + 1) -/
+theorem iteration_is_layout (le : Bool) (cls : Class) (align : Nat) (d : Slice) (ha : align ≠ 0)
+    (hlen : d.len < 2 ^ 63) :
+    (NoteIter.collect ⟨le, cls, align, d, 0⟩).1 = .ok (layout le cls align d (d.len + 1) 0) := by
+  unfold NoteIter.collect
+  have := collect_eq_layout le cls align d ha hlen (d.len + 1) 0 []
+  simpa using this
+
+/-- **A zero alignment yields nothing**, whatever the bytes. -/
+theorem zero_align_collect (le : Bool) (cls : Class) (d : Slice) (off n : Nat) :
+    (NoteIter.collectFuel n ⟨le, cls, 0, d, off⟩ []).1 = .ok [] := by
+  cases n with
+  | zero => rfl
+  | succ n =>
+    unfold NoteIter.collectFuel
+    have h := zero_align_yields_nothing le cls d off
+    generalize (NoteIter.next ⟨le, cls, 0, d, off⟩) = q at h
+    obtain ⟨q1, q2⟩ := q
+    simp only at h
+    subst h
+    rfl
+
 /- Non-vacuity: one record, align 4, LSB: namesz=4 ("abc\0"), descsz=2, type=7 -/
 example : recordAt true 4 (Slice.ofArray #[4,0,0,0, 2,0,0,0, 7,0,0,0, 97,98,99,0, 1,2,0,0]) 0
     = some (7, ⟨#[4,0,0,0, 2,0,0,0, 7,0,0,0, 97,98,99,0, 1,2,0,0], 12, 16⟩,
             ⟨#[4,0,0,0, 2,0,0,0, 7,0,0,0, 97,98,99,0, 1,2,0,0], 16, 18⟩, 20) := by decide
 example : padUp 4 13 = 16 ∧ padUp 4 16 = 16 ∧ padUp 3 7 = 9 := by decide
+/- two records back to back (align 4, LSB): "abc\0"/[1,2] type 7, then a bare 12-byte header of type 9 -/
+example : (layout true .ELF64 4 (Slice.ofArray #[4,0,0,0, 2,0,0,0, 7,0,0,0, 97,98,99,0, 1,2,0,0,
+                                                  0,0,0,0, 0,0,0,0, 9,0,0,0]) 33 0).length = 2 := by decide
 
 end Elf.C14
